@@ -754,7 +754,15 @@ fn known_shapes(h: &[HTok]) -> Vec<Shape> {
                     in_select = false;
                     stuck = false;
                 }
-                if let Some(p) = stack.iter().rposition(|x| x.0 == *name) {
+                // Under HTML rules inside an integration point an end tag does not reach an element below the
+                // island: the scopes ("has a p element in button scope", …) and the "any other end tag" walk stop at
+                // the integration-point element (a stray `</p>` makes an empty p). Only the table parts do (Ftb7).
+                let ip_pos = stack.iter().rposition(|x| x.1 == Kind::ForeignIp);
+                let target = stack.iter().rposition(|x| x.0 == *name);
+                let stops_at_island = top != Kind::Foreign
+                    && !["table", "tbody", "tfoot", "thead", "tr", "td", "th", "caption"].contains(&n)
+                    && matches!((ip_pos, target), (Some(ip), Some(q)) if q < ip);
+                if let Some(p) = target.filter(|_| !stops_at_island) {
                     stack.truncate(p);
                     close_mglyphs(stack.len(), i, &mut mglyphs, &mut out);
                     templates.retain(|(pos, _)| *pos < stack.len());
